@@ -178,6 +178,8 @@ type certSpec struct {
 	useKey bool     // ski = SHA-1 of the key (ignores ski)
 	alg    string   // "" / "ecdsa", "ed25519", "rsa"
 	chain  [][]byte // further certificates presented after the leaf
+	serial *big.Int // nil: random
+	cn     string   // "": the cn argument
 }
 
 type madeCert struct {
@@ -211,6 +213,12 @@ func makeCert(spec certSpec, cn string) (*madeCert, error) {
 		priv = k
 	}
 	serial, _ := rand.Int(rand.Reader, big.NewInt(1<<62))
+	if spec.serial != nil {
+		serial = spec.serial
+	}
+	if spec.cn != "" {
+		cn = spec.cn
+	}
 	mk := func(ski []byte) ([]byte, *x509.Certificate, error) {
 		tmpl := x509.Certificate{
 			SignatureAlgorithm:    sigAlg,
